@@ -1311,6 +1311,9 @@ class Pool:
 
     def _iterinactive(self):
         for worker in self._pool:
+            if getattr(worker, '_controlled_termination', False):
+                # already being shut down (shrink, terminate_job)
+                continue
             if not self._worker_active(worker):
                 yield worker
 
